@@ -94,6 +94,12 @@ class SimRawW(io.RawIOBase):
     def writable(self):
         return True
 
+    def fileno(self):
+        # a simulated descriptor: os.fstat (and only that) understands it while the seams are installed
+        if not hasattr(self, "_fd"):
+            self._fd = self.disk.fd_for(self.path)
+        return self._fd
+
     def write(self, b):
         disk = self.disk
         disk.yield_point("raw_write")
@@ -207,6 +213,11 @@ class SimTextR(io.TextIOWrapper):
     def name(self):
         return self._sim[1]
 
+    def fileno(self):
+        if not hasattr(self, "_fd"):
+            self._fd = self._sim[0].fd_for(self._sim[1])
+        return self._fd
+
     def __next__(self):
         disk = self._sim[0]
         disk.yield_point("readline")
@@ -317,6 +328,11 @@ class SimDisk:
         self.cwd_gone = False  # the working directory was removed under the process (os.getcwd raises)
         self.fake_fds = {}  # descriptor returned by the os.open seam -> (path, flags)
         self.versions = {}  # resolved path -> number of times it was opened for writing / replaced (stands in for mtime)
+
+    def fd_for(self, path):
+        fd = 10_000_000 + len(self.fake_fds)
+        self.fake_fds[fd] = (path, 0)
+        return fd
 
     def resolve(self, path, follow_last=True):
         p = os.fspath(path)
@@ -628,7 +644,7 @@ class Installed:
                 "isdir": os.path.isdir, "makedirs": os.makedirs, "mkdir": os.mkdir, "getcwd": os.getcwd,
                 "os_open": os.open, "stat": os.stat, "lstat": os.lstat, "islink": os.path.islink, "lexists": os.path.lexists,
                 "open": builtins.open, "io_open": io.open, "tok_open": tokenize._builtin_open,
-                "glob": glob.glob, "iglob": glob.iglob, "listdir": os.listdir, "chdir": os.chdir}
+                "glob": glob.glob, "iglob": glob.iglob, "listdir": os.listdir, "chdir": os.chdir, "fstat": os.fstat}
         self._os_real = real
         disk.real_open = real["open"]
 
@@ -876,6 +892,14 @@ class Installed:
         os.open = os_open
         os.stat = stat
         os.lstat = lstat
+
+        def fstat(fd):
+            if fd in disk.fake_fds:
+                disk.log("fstat", disk.fake_fds[fd][0])
+                return _stat(disk.fake_fds[fd][0], True)
+            return real["fstat"](fd)
+
+        os.fstat = fstat
         os.listdir = listdir
         builtins.open = any_open
         io.open = any_open
@@ -894,6 +918,7 @@ class Installed:
         os.path.isdir, os.path.islink, os.path.lexists = r["isdir"], r["islink"], r["lexists"]
         os.makedirs, os.mkdir, os.getcwd, os.chdir, os.open = r["makedirs"], r["mkdir"], r["getcwd"], r["chdir"], r["os_open"]
         os.stat, os.lstat, os.listdir = r["stat"], r["lstat"], r["listdir"]
+        os.fstat = r["fstat"]
         builtins.open, io.open, tokenize._builtin_open = r["open"], r["io_open"], r["tok_open"]
         glob.glob, glob.iglob = r["glob"], r["iglob"]
 
